@@ -88,6 +88,8 @@ def pieceStep (O : Oracles) (p0 : List Nat) : Step :=
       match O.parseIP phost with
       | some pip => .addIP pip pport
       | none =>
+        -- "domain.com." is the fully qualified spelling of "domain.com"
+        let phost := trimSuffixDot phost
         if phost = [] then .skip
         else
           let phost1 := if hasPrefix phost starDot then phost.drop 1 else phost
@@ -134,7 +136,7 @@ def schemeHTTPS : List Nat := [104, 116, 116, 112, 115]
 /-- `config.useProxyHostPort(host, port)`. -/
 def useProxy (c : Cfg) (r : Req) : Bool :=
   -- host names are case-insensitive: `addr := strings.ToLower(strings.TrimSpace(host))` comes first
-  let addr := toLower (trimSpace r.host)
+  let addr := trimSuffixDot (toLower (trimSpace r.host))
   if addr = localhost then false
   else if (match r.ip with | some ip => isLoopback ip | none => false) then false
   else
